@@ -3,6 +3,7 @@ processes over a simulated file system and stdio (seam S3), the TeX peer (S4), t
 oracle (S1) and the tqdm clock (S5).  Serves C12.
 """
 import errno
+import hashlib
 import io
 import json
 import re
@@ -477,7 +478,9 @@ def execute(case, focus=None):
         if policy == "any" and not faulted:
             run.check(len(keys) == 1 or algo == "lca", ("C12",), "C12.any-count",
                       f"{where}: wrote {len(keys)} lines")
-        run.event(policy, proc.status, len(complete), printed, sorted(fired))
+        run.event(policy, proc.status, len(complete), printed, sorted(fired),
+                  hashlib.sha256(text.encode()).hexdigest(),
+                  hashlib.sha256(proc.stderr.encode()).hexdigest())
     (all_keys, all_faulted, all_lines) = results["all"]
     (any_keys, any_faulted, _) = results["any"]
     if not all_faulted and not any_faulted:
@@ -527,7 +530,7 @@ def execute(case, focus=None):
                 run.check(not problems, ("C12",), "C12.draw-output-malformed",
                           lambda: f"draw output: {problems[:2]}")
             run.probe("draw_" + case["draw"])
-            run.event("draw", ln, proc.status, len(produced))
+            run.event("draw", ln, proc.status, hashlib.sha256(produced.encode()).hexdigest())
 
     # ---- documented error path ----------------------------------------------------------
     if case["error_path"] and not labelled_input:
